@@ -173,7 +173,8 @@ def gen_procprog(rng: random.Random) -> dict:
               # event back for another round `rearm` ns later (None: ordinary one-shot event)
               "rearm": rng.choice(DTS_NS) if rng.random() < 0.25 else None}
              for _ in range(rng.choice([0, 0, 1, 2, 3, 4]))]
-    return {"futures": fut_counter[0], "procs": procs, "initial": initial, "plain": plain, "prepared": prepared_pool,
+    return {"futs_from_earlier_run": rng.random() < 0.15,
+            "futures": fut_counter[0], "procs": procs, "initial": initial, "plain": plain, "prepared": prepared_pool,
             "loop": rng.choice(["auto", "fast", "control"])}
 
 
@@ -430,9 +431,10 @@ def _tree_kind(t) -> str:
 
 
 class EngineWorld:
-    def __init__(self, sc: dict):
+    def __init__(self, sc: dict, futs=None):
         self.sc = sc
-        self.futs = [SimFuture() for _ in range(sc["futures"])]
+        # (futs: SimFuture objects built elsewhere, e.g. by a handler of an earlier, completed simulation)
+        self.futs = futs if futs is not None else [SimFuture() for _ in range(sc["futures"])]
         _FUT_INDEX.clear()
         for i, f in enumerate(self.futs):
             _FUT_INDEX[id(f)] = i
